@@ -10,7 +10,7 @@ VERSIONS = [["D"], ["D", "D"], ["D", ".", "D"], ["D"] * 8, ["D"] * 9, ["D"] * 10
 
 
 def setup(mode, dev, directives):
-    import productmd.common as C
+    from . import enums as C
     mod, files, lines = core.gen_module("ComposeId", {"Shorts": set(tuple(s) for s in SHORTS),
                                                       "Versions": set(tuple(v) for v in VERSIONS),
                                                       "RelTypes": set(tuple(t) for t in C.RELEASE_TYPES)})
